@@ -118,7 +118,12 @@ def checkConst (s : String) : Option String :=
     | _, _ => some s!"{k} unknown"
   | _ => some s!"{s} malformed"
 
+/-- Empty accounts are shown as non-existent (canonical form shared with the harness): the real Finalise(true)
+    deletes only *dirty* empty objects, and an object re-created over a deleted one by GetOrNewStateObject is not
+    dirtied (resetObjectChange), so whether an empty account "exists" in the cache is not a function of the
+    model's state; it is never written to the trie and no EVM-visible getter except Exist can tell. -/
 def dumpAcct (w : World) (slots : List Nat) (a : Nat) : String :=
+  if w.isEmpty a then s!"{addrHex a}:0:0:0:-:0:" else
   let st := slots.filterMap fun k =>
     let v := w.storOf a k; let o := w.origOf a k
     if v == 0 && o == 0 then none else some s!"{k}={v}/{o}"
